@@ -59,23 +59,40 @@ def mk_field_types(centered=None, bounded=None):
     return ft
 
 
-def gen_val(rng):
+def gen_val(rng, sgr_data=False):
     k = rng.random()
     if k < 0.3:
-        return rng.choice([0, 7, -12, 123456, 3.5, -0.25, 10 ** 12])
+        return rng.choice([0, 1, 7, -12, 123456, 3.5, -0.25, 10 ** 12])
     if k < 0.4:
         return rng.choice([None, True, False])
+    if k < 0.43 and sgr_data:
+        # text that carries a terminal's colour sequences as data (a log line, the rendering of another text)
+        return rng.choice(["a\x1b[1;31mb", "\x1b[m", "x\x1b[0m"])
     return "".join(rng.choice("ab|+-. xyz") for _ in range(rng.choice([0, 1, 2, 3, 5, 9, 20])))
 
 
-def gen_records(rng, counts=(0, 1, 2, 3, 5, 8, 13)):
+def twin(rng, v):
+    """a value that compares equal to v but is shown differently (1 / True / 1.0), where there is one"""
+    if v is True or v is False:
+        return int(v)
+    if isinstance(v, int):
+        return bool(v) if v in (0, 1) and rng.random() < 0.5 else float(v)
+    return v
+
+
+def gen_records(rng, counts=(0, 1, 2, 3, 5, 8, 13), sgr_data=False):
     n = rng.choice(counts)
     recs = []
     same_b = rng.random() < 0.4
-    b_pool = [gen_val(rng) for _ in range(2)]
+    b_pool = [gen_val(rng, sgr_data) for _ in range(2)]
     for _ in range(n):
-        recs.append((gen_val(rng), rng.choice(b_pool) if same_b else gen_val(rng),
-                     rng.choice([1, 2, 30, 400, 4, 55555, None, "x"]), gen_val(rng)))
+        if recs and rng.random() < 0.08:
+            # a record that compares equal to an earlier one, field by field, but reads differently
+            r = rng.choice(recs)
+            recs.append((twin(rng, r[0]), twin(rng, r[1]), r[2], twin(rng, r[3])))
+            continue
+        recs.append((gen_val(rng, sgr_data), rng.choice(b_pool) if same_b else gen_val(rng, sgr_data),
+                     rng.choice([1, 2, 30, 400, 4, 55555, None, "x"]), gen_val(rng, sgr_data)))
     return recs
 
 
@@ -350,6 +367,15 @@ def _rows_match(lines, items, cols, widths, plus, W):
     return True
 
 
+class PlainTextDiffers(Exception):
+    pass
+
+
 def render(table):
     # the real no-colour output (str), not plain_text(): leaked escape sequences must show
-    return str(table.ch_text(no_color=True))
+    res = table.ch_text(no_color=True)
+    out = str(res)
+    # ... and the other documented way to take the text of a no-colour result gives the same characters
+    if hasattr(res, "plain_text") and res.plain_text() != out:
+        raise PlainTextDiffers("plain_text() of the no-colour result differs from its str(): %r" % res.plain_text()[:80])
+    return out
